@@ -33,6 +33,9 @@ TABLE = {
     "typer.Exit": ("exc", "Exit"),
     "os": ("module", "os"),
     "os.path": ("module", "os.path"),
+    "os.getcwd": ("fn", "os.getcwd"),
+    "os.path.relpath": ("fn", "os.path.relpath"),
+    "os.path.join": ("fn", "os.path.join"),
     "logging": ("module", "logging"),
     "copy.deepcopy": ("fn", "deepcopy"),
     "pygments.util.ClassNotFound": ("exc", "ClassNotFound"),
@@ -56,10 +59,43 @@ OUTPUT_METHODS = {
 }
 
 
+# (kind, member) -> dict(ret=type string, attr=bool, raises={Exc: None}, pure=True)
+SIGS = {
+    ("Path", "parents"): dict(ret="ext:PathParents", attr=True),
+    ("Path", "name"): dict(ret="str", attr=True),
+    ("Path", "absolute"): dict(ret="ext:Path"),
+    ("Path", "resolve"): dict(ret="ext:Path"),
+    ("Path", "joinpath"): dict(ret="ext:Path"),
+    ("Path", "is_absolute"): dict(ret="bool"),
+    ("Path", "is_file"): dict(ret="bool", fs=True),
+    ("Path", "is_dir"): dict(ret="bool", fs=True),
+    ("Path", "exists"): dict(ret="bool", fs=True),
+    ("Path", "relative_to"): dict(ret="ext:Path", raises={"ValueError": None}),
+    ("Path", "read_text"): dict(ret="str", fs=True),
+    ("Path", "write_text"): dict(ret="int", fs=True, effect=True),
+    ("Path", "mkdir"): dict(ret="None", fs=True, effect=True),
+    ("PathParents", "__contains__"): dict(ret="bool"),
+    ("PathSpec", "match_file"): dict(ret="bool"),
+    ("Lexer", "__class__"): dict(ret="ext:LexerClass", attr=True),
+    ("LexerClass", "name"): dict(ret="str", attr=True),
+}
+
+FUNS = {
+    "os.getcwd": dict(ret="str", fs=True),
+    "os.path.relpath": dict(ret="str"),
+    "os.path.join": dict(ret="str"),
+    "pathlib.Path.cwd": dict(ret="ext:Path", fs=True),
+    "pathlib.Path": dict(ret="ext:Path"),
+}
+
+
 def install(B):
+    B.ext_sigs = dict(SIGS)
+    B.ext_funs = dict(FUNS)
     B.ext_table = dict(TABLE)
     B.ext_fns = {}      # dotted name -> python handler(B, st, args, kwargs, node)
     B.ext_meths = {}    # (kind, method) -> handler(B, st, base, args, kwargs, node)
+    install_io(B)
 
 
 def external_value(B, st, dotted, node):
@@ -71,6 +107,8 @@ def external_value(B, st, dotted, node):
         return VModule(dotted, external=True)
     kind, x = ent
     if kind == "ctor":
+        if dotted == "pathlib.Path":
+            return st.new_ext("PathClass", {})
         return VFunc("extfn", name=dotted)
     if kind == "builtin":
         return VFunc("builtin", name=x)
@@ -144,15 +182,59 @@ def ensure_tok_axioms(B):
 def ext_contains(B, st, c, x, node):
     if c.kind == "TokTypeConst":
         return tok_in(B, st, x, st.ext_attrs(c)["$name"])
+    sig = B.ext_sigs.get((c.kind, "__contains__"))
+    if sig is not None:
+        return uninterp(B, st, f"{c.kind}.__contains__", [c, x], "bool", node).t
     h = B.ext_meths.get((c.kind, "__contains__"))
     if h:
         return h(B, st, c, [x], {}, node)
     raise E.Unsupported(f"membership in external {c.kind}", node)
 
 
+def uninterp(B, st, fname, args, ret, node, raises=None, fs=False, effect=False):
+    """Result of a pure external: an uninterpreted function of its arguments (file-system reads are
+    additionally indexed by a ghost file-system version, bumped by effectful externals)."""
+    eng = B.eng
+    terms = []
+    for a in args:
+        if isinstance(a, VCList):
+            a = eng.materialize(st, a)
+        if isinstance(a, VNone):
+            terms.append(z3.IntVal(0))
+        elif isinstance(a, VTuple):
+            terms.append(eng.unwrap(st, a))
+        elif isinstance(a, E.VOpt):
+            terms.append(a.inner.t)
+        else:
+            terms.append(eng.unwrap(st, a))
+    if fs:
+        terms.append(st.ghost.get("fs_version", z3.IntVal(0)))
+    if raises:
+        names = list(raises)
+        k = eng.choose(st, len(names) + 1)
+        if k > 0:
+            raise E.PyRaise(VExc(names[k - 1], ()), node)
+    if effect:
+        st.ghost = dict(st.ghost)
+        st.ghost["fs_version"] = st.fresh("fsv", z3.IntSort())
+    rt = parse_type(ret)
+    if rt.kind == "none":
+        return VNone()
+    safe = "".join(ch if ch.isalnum() else "_" for ch in fname)
+    f = z3.Function("x_" + safe + f"_{len(terms)}", *[t.sort() for t in terms], sort_of(rt))
+    term = f(*terms) if terms else z3.Const("x_" + safe, sort_of(rt))
+    v = eng.wrap(st, term, rt)
+    B.eng.used_assumptions.add(f"external {fname}: deterministic function of its arguments" + (" and the file system" if fs else ""))
+    return v
+
+
 def call_external(B, st, name, args, kwargs, node):
     if name in B.ext_fns:
         return B.ext_fns[name](B, st, args, kwargs, node)
+    if name in B.ext_funs:
+        sig = B.ext_funs[name]
+        return uninterp(B, st, name, list(args) + [kwargs[k] for k in sorted(kwargs)], sig["ret"], node,
+                        sig.get("raises"), sig.get("fs", False), sig.get("effect", False))
     ent = B.ext_table.get(name)
     if ent and ent[0] == "ctor":
         kind = ent[1]
@@ -165,7 +247,6 @@ def call_external(B, st, name, args, kwargs, node):
                 st.ext_set(v, "$str", args[0] if isinstance(args[0], VStr) else B.to_str(st, args[0], node))
             if "style" not in kwargs:
                 st.ext_set(v, "style", args[1] if len(args) > 1 else VStr(""))
-        st.trace.append(Event(v, "__init__", list(args), dict(kwargs), getattr(node, "lineno", 0)))
         return v
     if ent and ent[0] == "fn" and ent[1] == "deepcopy":
         return deepcopy_model(B, st, args[0], node)
@@ -177,6 +258,8 @@ def deepcopy_model(B, st, v, node):
 
 
 def call_external_obj(B, st, fv, args, kwargs, node):
+    if fv.kind == "PathClass":
+        return uninterp(B, st, "pathlib.Path", list(args), "ext:Path", node)
     raise E.Unsupported(f"call of external object {fv!r}", node)
 
 
@@ -184,12 +267,18 @@ def ext_method(B, st, base, name, args, kwargs, node):
     h = B.ext_meths.get((base.kind, name))
     if h:
         return h(B, st, base, args, kwargs, node)
+    sig = B.ext_sigs.get((base.kind, name))
+    if sig is not None and not sig.get("attr"):
+        return uninterp(B, st, f"{base.kind}.{name}", [base] + list(args) + [kwargs[k] for k in sorted(kwargs)],
+                        sig["ret"], node, sig.get("raises"), sig.get("fs", False), sig.get("effect", False))
     if name in OUTPUT_METHODS.get(base.kind, ()):
         st.trace.append(Event(base, name, list(args), dict(kwargs), getattr(node, "lineno", 0)))
         if base.kind == "Text" and name == "append":
             parts = st.ext_attrs(base).get("$parts", ())
             st.ext_set(base, "$parts", parts + ((args[0], kwargs.get("style", args[1] if len(args) > 1 else VNone())),))
         return VNone()
+    if base.kind == "PathClass" and name == "cwd":
+        return uninterp(B, st, "pathlib.Path.cwd", [], "ext:Path", node, fs=True)
     if base.kind == "Text" and name == "assemble":
         v = st.new_ext("Text", {"$parts": tuple(args)})
         return v
@@ -232,3 +321,67 @@ def opaque_subscript(B, st, base, idx, node):
     if h:
         return h(B, st, base, [idx], {}, node)
     raise E.Unsupported("subscript on opaque value", node)
+
+
+# ------------------------------------------------------------------------------------------------
+# I/O externals with may-raise contracts (trusted base; see DESIGN.md §4)
+def _h_get_lexer_for_filename(B, st, args, kwargs, node):
+    """pygments.lexers.get_lexer_for_filename(name): a lexer chosen from the file name, or ClassNotFound."""
+    return uninterp(B, st, "pygments.get_lexer_for_filename", [args[0]], "ext:Lexer", node, raises={"ClassNotFound": None})
+
+
+def _h_open(B, st, args, kwargs, node):
+    mode = args[1] if len(args) > 1 else kwargs.get("mode", VStr("r"))
+    enc = kwargs.get("encoding", VNone())
+    f = st.new_ext("File", {"path": args[0], "mode": mode, "encoding": enc})
+    return f
+
+
+def _h_file_read(B, st, base, args, kwargs, node):
+    a = st.ext_attrs(base)
+    enc = a.get("encoding", VNone())
+    mode = a.get("mode", VStr("r"))
+    binary = isinstance(mode, VStr) and mode.concrete() is not None and "b" in mode.concrete()
+    latin = isinstance(enc, VStr) and enc.concrete() in ("latin-1", "latin1", "iso-8859-1")
+    if binary:
+        return uninterp(B, st, "fs.read_bytes", [a["path"]], "ext:Bytes", node, fs=True)
+    if latin:
+        # every byte string decodes under Latin-1
+        return uninterp(B, st, "fs.read_text_latin1", [a["path"]], "str", node, fs=True)
+    # default (locale, here UTF-8) decoding fails on bytes that are not valid UTF-8
+    B.eng.used_assumptions.add("open(path).read(): returns the decoded text or raises UnicodeDecodeError; no OSError (file exists, readable)")
+    return uninterp(B, st, "fs.read_text_utf8", [a["path"]], "str", node, fs=True, raises={"UnicodeDecodeError": None})
+
+
+def _h_walk(B, st, args, kwargs, node):
+    """os.walk(top): top-down protocol; yields (root, dirs, files) with fresh lists of non-empty names."""
+    it = VIter("os.walk", TTuple(TStr, TList(TStr), TList(TStr)))
+    it.n = st.fresh("walk_n", z3.IntSort())
+    st.assume(it.n >= 0)
+    wid = st.fresh("walk_id", z3.IntSort())
+
+    def elem_at(eng, s, i):
+        rootf = z3.Function("walk_root", z3.IntSort(), z3.IntSort(), z3.StringSort())
+        dirs = eng.new_list(s, TStr, None, "walk_dirs")
+        files = eng.new_list(s, TStr, None, "walk_files")
+        for l in (dirs, files):
+            n = eng.list_len(s, l)
+            arr = z3.Select(s.eltmap(z3.StringSort()), l.ref)
+            k = z3.Int("wk!")
+            s.assume(z3.ForAll([k], z3.Implies(z3.And(k >= 0, k < n), z3.Length(z3.Select(arr, k)) > 0),
+                               patterns=[z3.Select(arr, k)]))
+        return VTuple([VStr(rootf(wid, i)), dirs, files])
+
+    it.elem_at = elem_at
+    B.eng.used_assumptions.add("os.walk: top-down (root, dirs, files) protocol, names are non-empty strings, pruning by in-place assignment to dirs")
+    return it
+
+
+def install_io(B):
+    B.ext_fns["pygments.lexers.get_lexer_for_filename"] = _h_get_lexer_for_filename
+    B.ext_fns["builtins.open"] = _h_open
+    B.ext_fns["os.walk"] = _h_walk
+    B.ext_meths[("File", "read")] = _h_file_read
+    B.ext_meths[("File", "__enter__")] = lambda B, st, base, args, kwargs, node: base
+    B.ext_table["os.walk"] = ("fn", "os.walk")
+    B.ext_table["pygments.lexers.get_lexer_for_filename"] = ("fn", "get_lexer_for_filename")
